@@ -76,7 +76,7 @@ fn one(env: &mut Env, out: &mut Out, r: &mut Rng, case_no: u64, big: bool) {
     run_case(env, out, r, case_no, h, c, new_parents);
 }
 
-fn gen_case(env: &mut Env, r: &mut Rng, big: bool) -> (Hist, usize, Vec<usize>) {
+pub fn gen_case(env: &mut Env, r: &mut Rng, big: bool) -> (Hist, usize, Vec<usize>) {
     let pal = Palette::new(r);
     let fam = pal.family(r, 4);
     let n = if big { r.range(3, 7) } else { r.range(2, 4) };
